@@ -85,7 +85,7 @@ pub fn wrap_counter_blocks() -> Vec<[u8; 16]> {
 
 fn local_cases<B: Backend, P: Prims>(opts: &Opts, rep: &mut Report, idx: &mut u64) {
     let stream = format!("c03.{}.local", B::NAME);
-    let n = opts.size(2000, 50000);
+    let n = opts.size(8000, 100000);
     for _ in 0..n {
         *idx += 1;
         if !opts.mine(*idx) {
@@ -146,7 +146,7 @@ fn local_cases<B: Backend, P: Prims>(opts: &Opts, rep: &mut Report, idx: &mut u6
     if B::VER <= 2 {
         let class = format!("{}.local.reference-built-embedded-nonce", B::NAME);
         let blocks = wrap_counter_blocks();
-        let n = opts.size(400, 5000);
+        let n = opts.size(2000, 20000);
         for i in 0..n {
             *idx += 1;
             if !opts.mine(*idx) {
@@ -185,7 +185,7 @@ fn local_cases<B: Backend, P: Prims>(opts: &Opts, rep: &mut Report, idx: &mut u6
 
 fn public_cases<B: Backend, P: Prims>(opts: &Opts, rep: &mut Report, idx: &mut u64) {
     let stream = format!("c03.{}.public", B::NAME);
-    let n = if B::VER == 1 { opts.size(300, 4000) } else { opts.size(1500, 30000) };
+    let n = if B::VER == 1 { opts.size(800, 6000) } else { opts.size(5000, 60000) };
     let mut krng = Rng::derive(opts.seed, &stream, 0);
     // a handful of keys, each used for many messages
     let keys: Vec<Vec<u8>> = (0..6).map(|_| B::gen_secret(&mut krng)).collect();
@@ -273,7 +273,7 @@ fn siblings<A: Backend, B: Backend>(opts: &Opts, rep: &mut Report) {
     }
     let stream = format!("c03.sib.{}.{}", A::NAME, B::NAME);
     let pair = format!("{}~{}", A::NAME, B::NAME);
-    let n = opts.size(1500, 30000);
+    let n = opts.size(5000, 60000);
     let mut idx = 0u64;
     for _ in 0..n {
         idx += 1;
